@@ -15,6 +15,7 @@ import (
 	"html/template"
 	"io"
 	"log"
+	"os"
 	"regexp"
 	"sort"
 	"strconv"
@@ -732,6 +733,9 @@ type c18case struct {
 
 func runC18(c *Ctx) {
 	log.SetOutput(io.Discard)
+	if os.Getenv("VERIF_REPLAY") == "" {
+		defer c18LibraryValues(c)
+	}
 	c.rule = "value trees as in C17 (depth<=4; eager/lazy/appended lists; maps in every representation; ints, floats, bools, strings and keys of legal XML characters with a pool of markup fragments: < > & ' \" ]]> comment/CDATA/entity look-alikes, blanks, =, CR/LF/TAB, non-name characters) plus Format (string, map, closure, table-format styles; cell; colspan), Link and File wrappers, list sizes around maxListSize; each tree goes through the real XML exporter and through ToHtml (inline and class styles); encoding/xml reads the bytes back and the forest is compared with the structure the shape dictates (property predicate); bytes, class list and token stream are compared with the Lean model and its reference decoder; non-trivial = distinct tree with a container and a string/key/style containing a markup or white-space character"
 	c.assume = append(c.assume,
 		"scalar-to-string conversions (ToString, strconv, NewFormattedFloat.Unicode, base64, byteSize) are oracles supplied by the harness",
@@ -1140,6 +1144,107 @@ func unwrapCustom(forest []*XNode) []*XNode {
 		res = append(res, &c)
 	}
 	return res
+}
+
+// c18LibraryValues: values built by the library itself (bins of a binning and other map representations of its own) through
+// the XML and the HTML exporter: well-formed, and every scalar the observers (Iterate, Iter, ToString) show, and every key Iter
+// shows, is somewhere in the decoded document (as text, attribute value or element name)
+func c18LibraryValues(c *Ctx) {
+	fg := value.New()
+	st := funcGen.NewEmptyStack[value.Value]()
+	var leaves func(v value.Value, out *[]string)
+	leaves = func(v value.Value, out *[]string) {
+		if l, ok := v.ToList(); ok {
+			for it, err := range l.Iterate(st) {
+				if err != nil {
+					return
+				}
+				leaves(it, out)
+			}
+			return
+		}
+		if m, ok := v.ToMap(); ok {
+			m.Iter(func(k string, mv value.Value) bool { *out = append(*out, k); leaves(mv, out); return true })
+			return
+		}
+		if s, err := v.ToString(st); err == nil {
+			*out = append(*out, s)
+		}
+	}
+	var collect func(ns []*XNode, have map[string]bool)
+	collect = func(ns []*XNode, have map[string]bool) {
+		for _, n := range ns {
+			if n.IsText {
+				have[strings.TrimSpace(n.Text)] = true
+				continue
+			}
+			have[n.Name] = true
+			for _, a := range n.Attrs {
+				have[a[0]], have[a[1]] = true, true
+			}
+			collect(n.Kids, have)
+		}
+	}
+	for _, src := range []string{
+		"[0.5, 1.5, 2.5, 0 - 3].binning(0, 1, 3, x -> x, x -> 1)", "[0.5, 1.5, 2.5].binning(1, 1, 1, x -> x, x -> 1).descr", "[[0.5, 0.5], [1.5, 2.5]].binning2d(0, 1, 2, 0, 1, 3, x -> x[0], x -> x[1], x -> 1)",
+		"[3, 1, 2].minMax(e -> e)", "[1, 2, 3, 4].groupByInt(e -> e % 2)", "[1, 2, 3, 4].movingWindow(e -> e)", "[1, 2, 3].multiUse({s: l -> l.sum(), m: l -> l.map(e -> e * 2)})", "{a: 1}.put(\"b\", [1, {c: 2}]).list()",
+		"[1, 2, 3].number((i, e) -> {idx: i, val: e})", "{a: 1} + {b: {c: [1, 2]}}", "{a: 1, b: 2}.replace(m -> {a: 5})", "[[0.5].binning(0, 1, 2, x -> x, x -> 1), [1.5].binning(0, 1, 2, x -> x, x -> 1)].collectBinning()"} {
+		f, _, err := fg.Generate(src)
+		if err != nil {
+			fatal("C18 library values: %q: %v", src, err)
+		}
+		v, err := f.Eval()
+		if err != nil {
+			fatal("C18 library values: %q: %v", src, err)
+		}
+		var want []string
+		leaves(v, &want)
+		for _, kind := range []string{"xml", "html"} {
+			c.Case("library-value|"+kind+"|"+src, true)
+			c.Count("library-value:" + kind)
+			var out []byte
+			var xerr error
+			if kind == "xml" {
+				out, xerr = exportXML(v)
+			} else {
+				res, _, e2, esc := safeToHtml(v, 100, true)
+				out, xerr = []byte(res), e2
+				if esc != nil {
+					xerr = fmt.Errorf("panic: %v", esc)
+				}
+			}
+			rp := map[string]any{"program": src, "exporter": kind, "output": truncate(string(out), 1500)}
+			if xerr != nil {
+				c.Violation(kind+"-library-value-error", "the exporter fails on an error-free value built by the library: "+xerr.Error(), rp)
+				continue
+			}
+			forest, _, perr := parseForest(out)
+			if perr != nil {
+				c.Violation(kind+"-not-wellformed", "standard parser rejects the exported document of a value built by the library: "+perr.Error(), rp)
+				continue
+			}
+			have := map[string]bool{}
+			collect(forest, have)
+			for _, w := range want {
+				w2 := strings.TrimSpace(w)
+				if w2 == "" || have[w2] || have[w2+":"] {
+					continue
+				}
+				found := false
+				for h := range have {
+					if strings.Contains(h, w2) {
+						found = true
+						break
+					}
+				}
+				if !found {
+					rp["missing"] = w
+					c.Violation(kind+"-library-value-incomplete", fmt.Sprintf("%q, which the observers of the value show, is nowhere in the exported document", w), rp)
+					break
+				}
+			}
+		}
+	}
 }
 
 func truncate(s string, n int) string {
